@@ -10,16 +10,17 @@ use std::sync::Arc;
 use std::task::Waker;
 use vsched::rt;
 
-pub struct Sh<T>(UnsafeCell<T>);
+/// (boxed: a leaked Weak<World> then pins only a few words, see Payload)
+pub struct Sh<T>(UnsafeCell<Box<T>>);
 unsafe impl<T> Send for Sh<T> {}
 unsafe impl<T> Sync for Sh<T> {}
 impl<T> Sh<T> {
     pub fn new(t: T) -> Sh<T> {
-        Sh(UnsafeCell::new(t))
+        Sh(UnsafeCell::new(Box::new(t)))
     }
     #[inline]
     pub fn with<R>(&self, f: impl FnOnce(&mut T) -> R) -> R {
-        unsafe { f(&mut *self.0.get()) }
+        unsafe { f(&mut **self.0.get()) }
     }
 }
 
@@ -71,6 +72,8 @@ pub struct OpRec {
     pub token_drops: u32,
     pub in_poll: u32,
     pub waiting_gate: Option<usize>,
+    /// suspended after waking itself during the poll (Step::SelfWake)
+    pub waiting_self: bool,
     pub gate_polled: bool,
     pub runner_task: usize,
     pub resolved: bool,
@@ -105,6 +108,7 @@ impl OpRec {
             token_drops: 0,
             in_poll: 0,
             waiting_gate: None,
+            waiting_self: false,
             gate_polled: false,
             runner_task: usize::MAX,
             resolved: false,
@@ -210,6 +214,10 @@ pub struct Violation {
 /// Counters used to classify cases (non-triviality rules, evidence histograms)
 #[derive(Clone, Debug, Default)]
 pub struct Stats {
+    /// Step::SelfWake polls (wake-up delivered during the poll)
+    pub self_wakes: u32,
+    /// last-owner drops performed by a thread that is unwinding from its own panic
+    pub unwinding_last_owner_drops: u32,
     /// an op began while another op on the same object was invoked but not finished
     pub contended_begins: u32,
     /// scheduling points taken inside an op while a competitor existed on the same object
@@ -273,7 +281,7 @@ pub struct Inner {
 }
 
 pub struct World {
-    pub case: Case,
+    pub case: Box<Case>,
     pub inner: Sh<Inner>,
 }
 
@@ -288,13 +296,15 @@ pub struct Res {
 pub struct Payload {
     pub obj: usize,
     pub log: Vec<u32>,
-    pub w: Arc<World>,
+    /// weak: the value of a panicked object is never destroyed and must not keep the shadow state of its case alive
+    pub w: std::sync::Weak<World>,
 }
 
 impl Drop for Payload {
     fn drop(&mut self) {
-        let w = self.w.clone();
-        w.payload_dropped(self.obj);
+        if let Some(w) = self.w.upgrade() {
+            w.payload_dropped(self.obj);
+        }
     }
 }
 
